@@ -17,10 +17,11 @@
            wait_results disjoint from edges
        I3  T_grounded, T_inverse, T_nodup : transferred is a forest and transferred_dependents
            its inverse — through every branch of transfer_lock, re-rooting included.
-   * I4 = [C19_woken_exactly_once], I5 = [C19_release_wakes_all], I6 = [C19_no_wait_cycle]. *)
+   * I4 = [C19_woken_exactly_once], I5 = [C19_release_wakes_all] (direct dependents) and
+     [C19_release_target_wakes_all] (recursively, transfer targets), I6 = [C19_no_wait_cycle]. *)
 From Salsa Require Import Base.
 From Salsa.Proto Require Import Model ProofsGraph ProofsList ProofsInv ProofsTransfer ProofsWake
-  ProofsStep ProofsExamples.
+  ProofsSubtree ProofsStep ProofsExamples.
 
 (* ---- I1, I2, I3 in every reachable state, any number of threads and keys ---- *)
 Theorem C19_protocol :
@@ -180,3 +181,65 @@ Example C19_release_wakes_all_witness :
   | RErr _ => (None, None, [])
   end = (None, Some Panicked, []).
 Proof. split; [exact ex_before_unblock_reachable | exact ex_unblock_step]. Qed.
+
+(* ---- I5 (transfer target): releasing a key that owns transferred keys releases all of them,
+   recursively, and wakes everybody who waited for one of them with the release result ---- *)
+Theorem C19_release_target_wakes_all :
+  forall fuel s t k r s' out,
+  reachable fuel s -> step fuel s (OUnblockTransferred t k r) = ROk (s', out) ->
+  transferred (dg s') k = None /\ tdeps (dg s') k = None /\
+  (forall x, x <> k -> reaches (tproj (dg s)) x k ->
+     cleared (dg s') x /\
+     forall d u, edges (dg s) d = Some (u, x) ->
+                 edges (dg s') d = None /\ wres (dg s') d = Some r).
+Proof. exact release_target_wakes_all. Qed.
+
+Check C19_release_target_wakes_all :
+  forall fuel s t k r s' out,
+  reachable fuel s -> step fuel s (OUnblockTransferred t k r) = ROk (s', out) ->
+  transferred (dg s') k = None /\ tdeps (dg s') k = None /\
+  (forall x, x <> k -> reaches (tproj (dg s)) x k ->
+     cleared (dg s') x /\
+     forall d u, edges (dg s) d = Some (u, x) ->
+                 edges (dg s') d = None /\ wres (dg s') d = Some r).
+Print Assumptions C19_release_target_wakes_all.
+
+(* [ex_cycle]: query 20 was transferred to 10; the state before
+   [OUnblockTransferred 1 10 Panicked] is reachable and the step releases 20 as well *)
+Example C19_release_target_wakes_all_witness :
+  reachable 20 ex_before_unblock_transferred /\
+  match step 20 ex_before_unblock_transferred (OUnblockTransferred 1 10 Panicked) with
+  | ROk (s', _) => (transferred (dg ex_before_unblock_transferred) 20,
+                    transferred (dg s') 20, tdeps (dg s') 10)
+  | RErr _ => (None, None, None)
+  end = (Some (1, 10), None, None).
+Proof.
+  split; [exact ex_before_unblock_transferred_reachable | exact ex_unblock_transferred_step].
+Qed.
+
+(* ---- the two hypotheses hidden in [valid_client] that are NOT documented preconditions of
+   the Rust API, and why they are there ---- *)
+
+(* (a) [transfer_pre], Vacant branch: transfer_lock re-roots only in its Occupied branch.  A
+   client that follows the documented discipline but transfers a query without an entry to a
+   key whose transfer chain leads back to it breaks I3 (a cycle d -> c -> a -> d). *)
+Theorem C19_vacant_branch_needs_transfer_pre :
+  validb 20 init (firstn 8 ex_vacant_cycle) = true /\
+  exists s, run 20 ex_vacant_cycle init = ROk s /\ ~ tinv (dg s).
+Proof. exact (conj ex_vacant_cycle_prefix_valid ex_vacant_cycle_breaks_I3). Qed.
+
+Check C19_vacant_branch_needs_transfer_pre :
+  validb 20 init (firstn 8 ex_vacant_cycle) = true /\
+  exists s, run 20 ex_vacant_cycle init = ROk s /\ ~ tinv (dg s).
+Print Assumptions C19_vacant_branch_needs_transfer_pre.
+
+(* (b) "[step] returns [ROk]" includes the debug_assert of update_transferred_edges
+   (dependency_graph.rs:422-425, error [EEdgeCycle]).  In a client model that may choose whom a
+   thread blocks on, that assertion is a real obligation: *)
+Theorem C19_edge_assert_is_an_obligation :
+  match run 20 ex_edge_assert init with ROk _ => None | RErr e => Some e end = Some EEdgeCycle.
+Proof. exact ex_edge_assert_fires. Qed.
+
+Check C19_edge_assert_is_an_obligation :
+  match run 20 ex_edge_assert init with ROk _ => None | RErr e => Some e end = Some EEdgeCycle.
+Print Assumptions C19_edge_assert_is_an_obligation.
